@@ -204,6 +204,12 @@ class StubSim(mosaik_api_v3.Simulator):
     def finalize(self):
         self.finalized += 1
         self.ctx.ev("F", self.sid)
+        f = self.spec.get("fault")
+        if f and f["req"] == "finalize" and self.finalized == 1:
+            # the simulator fails while it is being stopped
+            self.ctx.ev("X", self.sid, "fault", f["kind"], "finalize", 0)
+            for _ in self.ctx.inject_fault(self, f):
+                pass
 
     # -- helpers ------------------------------------------------------------
     def _shape(self):
